@@ -226,6 +226,14 @@ def directed():
                 for pp in (prefs if len(prefs) == 3 else prefs[k % 2::2]):
                     hist.append(D(b"intruder", [hh], [pp], b"tx:80"))
         out.append(hist)
+    # a (re)deploy that lists several hosts of which a LATER one is owned by somebody else (the first ones its own, or free, with
+    # and without bindings): refused whatever the position of the conflicting host in the list; the same prefix on every host
+    s1, s2, s3 = b"spare.example.com", b"two.example.com", b"three.example.com"
+    for pf in ([b"/"], [b"/api"]):
+        out.append([D(b"one", [h], pf, b"ta:80"), D(b"two", [s1], pf, b"tb:80"), D(b"two", [s1, h], pf, b"tc:80"),
+                    D(b"two", [s1, s2, h], pf, b"td:80"), D(b"three", [s3, s1, h], pf, b"te:80"), D(b"three", [s3, s2, g], pf, b"tf:80"),
+                    D(b"two", [s1, g, h], pf, b"tg:80"), D(b"two", [s1, s2], pf, b"th:80"), D(b"one", [h, s2], pf, b"ti:80"),
+                    D(b"one", [h, g, s3, s2], pf, b"tj:80")])
     return out
 
 
